@@ -39,10 +39,35 @@ Section Apply.
   | AFail
   | AFuel.
 
-  (** [seen]: the states entered since input was last consumed (or the flag last changed),
+  (** The loop over the matches of one state. [rec] is the recursive call (apply with less fuel);
+      [seen]: the states entered since input was last consumed (or the flag last changed),
       whether still on the current path or already explored without success. The set is
       threaded through the backtracking, so each state is explored at most once per
       configuration. *)
+  Section Try.
+    Variable rec : nat -> list str -> bool -> list nat -> ares * list nat.
+    Variables (args1 : list str) (ro1 : bool).
+
+    Fixpoint try_matches (ms : list matchrec) (seen : list nat) : ares * list nat :=
+      match ms with
+      | [] => (AFail, seen)
+      | (t, rem, ro', bs) :: ms' =>
+        if strs_eqb rem args1 && Bool.eqb ro' ro1 then
+          (* no progress: do not re-enter a state already entered with this configuration *)
+          if mem_nat t seen then try_matches ms' seen
+          else match rec t rem ro' seen with
+               | (AOk bs', seen') => (AOk (bs ++ bs'), seen')
+               | (AFail, seen') => try_matches ms' seen'
+               | (AFuel, seen') => (AFuel, seen')
+               end
+        else match rec t rem ro' [] with
+             | (AOk bs', _) => (AOk (bs ++ bs'), seen)
+             | (AFail, _) => try_matches ms' seen
+             | (AFuel, _) => (AFuel, seen)
+             end
+      end.
+  End Try.
+
   Fixpoint apply (fuel : nat) (s : nat) (args : list str) (ro : bool) (seen : list nat)
     : ares * list nat :=
     match fuel with
@@ -50,25 +75,8 @@ Section Apply.
     | S f =>
       let '(args1, ro1) := strip args ro in
       let seen1 := s :: (if Nat.eqb (length args1) (length args) then seen else []) in
-      if (match args1 with [] => terminal g s | _ => false end) then (AOk [], seen1) else
-      (fix try (ms : list matchrec) (seen : list nat) : ares * list nat :=
-         match ms with
-         | [] => (AFail, seen)
-         | (t, rem, ro', bs) :: ms' =>
-           if strs_eqb rem args1 && Bool.eqb ro' ro1 then
-             (* no progress: do not re-enter a state already entered with this configuration *)
-             if mem_nat t seen then try ms' seen
-             else match apply f t rem ro' seen with
-                  | (AOk bs', seen') => (AOk (bs ++ bs'), seen')
-                  | (AFail, seen') => try ms' seen'
-                  | (AFuel, seen') => (AFuel, seen')
-                  end
-           else match apply f t rem ro' [] with
-                | (AOk bs', _) => (AOk (bs ++ bs'), seen)
-                | (AFail, _) => try ms' seen
-                | (AFuel, _) => (AFuel, seen)
-                end
-         end) (collect s args1 ro1) seen1
+      if (match args1 with [] => terminal g s | _ => false end) then (AOk [], seen1)
+      else try_matches (apply f) args1 ro1 (collect s args1 ro1) seen1
     end.
 
   (** recursion depth bound: every step either makes progress in (size, flag) or lengthens
